@@ -8,7 +8,7 @@ SinglePlans == {NoneP} \cup
 \* two call-outs with foreign actions
 PairPlans == SinglePlans \cup
     {[[NoneP EXCEPT ![c] = a] EXCEPT ![d] = b] :
-        c \in {"A", "B", "C1"}, d \in {"C1", "D", "F"},
+        c \in {"A", "B", "C1"}, d \in {"C1", "C3", "D", "F"},
         a \in {"mutate", "nested"}, b \in {"mutate", "raise", "nested"}}
 OnlyNone == {NoneP}
 AllEntries == {"lookup", "lookup1", "hook", "all"}
